@@ -174,9 +174,16 @@ static void process_get_attr(struct xcm_socket *socket,
 			     struct ctl_proto_get_attr_req *req,
 			     struct ctl_proto_msg *response)
 {
-    LOG_CLIENT_GET_ATTR(socket, req->attr_name);
-
     struct ctl_proto_get_attr_cfm *cfm = &response->get_attr_cfm;
+
+    /* the name comes off the wire, and is not necessarily terminated */
+    if (memchr(req->attr_name, '\0', sizeof(req->attr_name)) == NULL) {
+	response->type = ctl_proto_type_get_attr_rej;
+	response->get_attr_rej.rej_errno = EINVAL;
+	return;
+    }
+
+    LOG_CLIENT_GET_ATTR(socket, req->attr_name);
 
     UT_SAVE_ERRNO;
     int rc = xcm_attr_get(socket, req->attr_name, &cfm->attr.value_type,
@@ -205,15 +212,23 @@ static void add_attr(const char *attr_name, enum xcm_attr_type type,
 	return;
 
     struct ctl_proto_get_all_attr_cfm *cfm = data;
+
+    /* the response carries what fits: a limited number of attributes,
+       each with a name and a value of limited size */
+    if (cfm->attrs_len == CTL_PROTO_MAX_ATTRS)
+	return;
+
+    if (strlen(attr_name) >= sizeof(cfm->attrs[0].name) ||
+	len > sizeof(cfm->attrs[0].any_value))
+	return;
+
     struct ctl_proto_attr *attr = &cfm->attrs[cfm->attrs_len];
 
     cfm->attrs_len++;
-    ut_assert(cfm->attrs_len < CTL_PROTO_MAX_ATTRS);
 
     strcpy(attr->name, attr_name);
     attr->value_type = type;
 
-    ut_assert(attr->value_len < sizeof(attr->any_value));
     memcpy(attr->any_value, value, len);
     attr->value_len = len;
 }
@@ -224,6 +239,8 @@ static void process_get_all_attr(struct xcm_socket *socket,
     LOG_CLIENT_GET_ALL_ATTR(socket, req->attr_name);
 
     struct ctl_proto_get_all_attr_cfm *cfm = &response->get_all_attr_cfm;
+
+    response->type = ctl_proto_type_get_all_attr_cfm;
 
     cfm->attrs_len = 0;
 
